@@ -179,6 +179,9 @@ pub enum SinkKind {
 pub enum Combine {
     Merge,
     Zip,
+    /// zip of two streams with arbitrary arrival order, every pair mapped to the constant 1: the
+    /// result (min(|a|,|b|) ones per iteration) does not depend on the pairing
+    ZipCount,
     Join(JoinKind, JoinAlgo, i64),
 }
 
@@ -395,7 +398,7 @@ pub fn features(job: &JobSpec) -> Features {
                 f.has_join = true;
                 f.repartitions += 1
             }
-            Combine::Zip => f.has_zip = true,
+            Combine::Zip | Combine::ZipCount => f.has_zip = true,
             Combine::Merge => {}
         }
     }
